@@ -256,7 +256,9 @@ fn gen_config(seed: u64, idx: u64, maxdepth: u64) -> Config {
     let y0: Vec<f64> = rng.normal_vec(d).iter().map(|v| 0.8 * v).collect();
     let start: Vec<f64> = mat_vec(&f, &y0).iter().zip(&c).map(|(a, b)| a + b).collect();
     let momentum = rng.normal_vec(d);
-    let step_size = rng.log_range(0.01, 1.5);
+    // the energy error of a step grows with the dimension: keep the wide configurations inside the quantifier
+    // (no divergence, moderate energy spread over the explored segment)
+    let step_size = if d >= 16 { rng.log_range(0.15, 1.0) } else { rng.log_range(0.01, 1.5) };
     Config { setup: Setup { target, transform, kind, step_size, start }, momentum, maxdepth, seed, idx }
 }
 
@@ -435,6 +437,10 @@ fn run_config(report: &mut Report, cfg: &Config, verbose: bool) {
             }
         }
         report.count("state_pairs_checked", pairs);
+        if setup.start.len() >= 16 {
+            report.count("wide_configurations_checked", 1);
+            report.count("wide_u_turn_stops", k0.paths.iter().filter(|p| p.stop == Stop::Turning).count() as u64);
+        }
         let depths: Vec<u64> = k0.paths.iter().map(|p| p.depth).collect();
         let mut hsh = Fnv::new();
         hsh.str(kname).str(tname).u64(setup.start.len() as u64).str(setup.target.name()).u64(*depths.iter().max().unwrap_or(&0));
